@@ -33,6 +33,14 @@ def main():
     if a.cmd == "setup":
         return setup()
     common.WORK.mkdir(parents=True, exist_ok=True)
+    # scratch files of cases that were interrupted or reported (kept for inspection) are dropped after two hours
+    import time
+    for f in common.WORK.iterdir():
+        try:
+            if f.is_file() and not f.name.startswith(".lock") and time.time() - f.stat().st_mtime > 7200:
+                f.unlink()
+        except OSError:
+            pass
     mod = importlib.import_module(a.pid.lower())
     if a.cmd == "check":
         try:
